@@ -4,6 +4,10 @@ import (
 	"fmt"
 	"net/http"
 	"net/http/httptest"
+	"os"
+	"path/filepath"
+	"regexp"
+	"sort"
 	"strings"
 	"sync/atomic"
 
@@ -49,6 +53,32 @@ func c19() int {
 	if !rep.Thorough() {
 		headers = headers[:4]
 		queries = queries[:3]
+	}
+	// one header set per request header the code base (or the usual proxies / CORS machinery) looks at: the names are
+	// harvested from the working tree, so a guard that starts to consult a header is exercised with it
+	hnames := map[string]bool{"Access-Control-Request-Method": true, "Access-Control-Request-Headers": true, "Origin": true, "X-Forwarded-Method": true,
+		"X-Original-Method": true, "Upgrade": true, "Authorization": true, "X-Requested-With": true}
+	hre := regexp.MustCompile(`Header(?:\(\))?\.(?:Get|Values)\("([^"]+)"\)`)
+	for _, root := range []string{"/repo/internal", "/repo/libs", "/repo/cmd", "/repo/pkg"} {
+		_ = filepath.Walk(root, func(path string, info os.FileInfo, err error) error {
+			if err != nil || info.IsDir() || !strings.HasSuffix(path, ".go") || strings.HasSuffix(path, "_test.go") {
+				return nil
+			}
+			if b, err := os.ReadFile(path); err == nil {
+				for _, m := range hre.FindAllStringSubmatch(string(b), -1) {
+					hnames[http.CanonicalHeaderKey(m[1])] = true
+				}
+			}
+			return nil
+		})
+	}
+	var hsorted []string
+	for n := range hnames {
+		hsorted = append(hsorted, n)
+	}
+	sort.Strings(hsorted)
+	for _, n := range hsorted {
+		headers = append(headers, map[string]string{n: "POST"}, map[string]string{n: "POST", "Origin": "http://example.test"})
 	}
 	variants := func(path string) []string {
 		out := []string{path, path + "/", strings.Replace(path, "/api/ledger", "/api/ledger/", 1), strings.ToUpper(path), strings.Replace(path, "/v2", "/%76%32", 1), strings.Replace(path, "transactions", "transactions%2F", 1)}
